@@ -357,6 +357,9 @@ func main() {
 		}
 	}
 	rec("", 0)
+	// HTML-entity look-alikes (the dumper passes text through html escaping): named and numeric
+	// entities with and without the closing semicolon, inside ordinary text
+	strs = append(strs, "?q=go&lt=10", "title=Demo&section=3", "a&ampb", "&amp", "&amp;", "&lt;", "&gt", "&quot", "&quot;x", "&#38", "&#38;", "&#x26;", "&copy", "&copy;", "&sect1", "&nbsp", "AT&T", "a&b;c", "&&amp;&", "&#", "&#;", "&lt&gt")
 	holes := []struct{ name, pre, post string }{
 		// name = <group>/<position>; the group (code path in the dumper) is part of the class
 		{"value/const-string", "const string c = ", "\n"},
